@@ -180,6 +180,12 @@ func probeDigestOf(rm *rmux, probes [][2]string) (string, []string) {
 
 // attempt registers svcs (base first when onto == "base", then the new service) and reports.
 func attempt(onto string, newSvc ServiceSpec, routedReq [2]string) (out, errText, pb, pa string, routed bool) {
+	var stops []func() // backends started for the case: they serve until the case is over
+	defer func() {
+		for _, s := range stops {
+			s()
+		}
+	}()
 	var svcs []ServiceSpec
 	if onto == "base" {
 		svcs = append(svcs, baseService())
@@ -260,6 +266,19 @@ func attempt(onto string, newSvc ServiceSpec, routedReq [2]string) (out, errText
 			}
 			if err := larking.VerifRegisterService(mux, MakeServiceDesc(sds2[len(sds2)-1], un, nil), struct{}{}); err != nil {
 				out, errText = "reject", "second registration of the accepted service: "+err.Error()
+				return
+			}
+			// ... and two more backends through connections (their descriptors come from reflection: equal by name, not by
+			// identity), for a part of the cases (a server per case)
+			if (len(routedReq[1])+len(onto))%4 == 0 {
+				for k := 0; k < 2; k++ {
+					stop, err := registerThroughConn(mux, svcs[len(svcs)-1:], fmt.Sprintf("conn%d", k), un)
+					stops = append(stops, stop)
+					if err != nil {
+						out, errText = "reject", "registration of the accepted service through a connection: "+err.Error()
+						return
+					}
+				}
 			}
 		}()
 		if out != "accept" {
